@@ -33,6 +33,19 @@ fn main() {
         }
         "replay" => replay(args.get(2).map(|s| s.as_str()).unwrap_or_else(|| usage())),
         "worker" => worker(&args[2..]),
+        "parse" => {
+            let t = std::fs::read_to_string(&args[2]).unwrap();
+            let p = syntax::parse_module(&t);
+            for e in p.errors() {
+                let s = usize::from(e.range.start());
+                let line = t[..s].matches('\n').count() + 1;
+                println!("{:?} at {:?} line {} near {:?}", e.kind, e.range, line, &t[s..(s + 20).min(t.len())]);
+            }
+            if args.get(3).map(|s| s.as_str()) == Some("tree") {
+                println!("{:#?}", p.syntax_node());
+            }
+            0
+        }
         _ => usage(),
     };
     std::process::exit(code);
@@ -42,6 +55,7 @@ fn check(prop: &str, tier: Tier) -> i32 {
     match prop {
         "C01" => props::parser::run(props::parser::Which::C01, tier),
         "C02" => props::parser::run(props::parser::Which::C02, tier),
+        "C03" => props::recovery::run(tier),
         "C13" => props::positions::run_c13(tier),
         "C14" => props::positions::run_c14(tier),
         _ => {
@@ -65,6 +79,7 @@ fn replay(path: &str) -> i32 {
     let fails: Vec<String> = match prop {
         "C01" => props::parser::replay(props::parser::Which::C01, w),
         "C02" => props::parser::replay(props::parser::Which::C02, w),
+        "C03" => props::recovery::replay(w),
         "C13" => props::positions::replay_c13(w),
         "C14" => props::positions::replay_c14(w),
         _ => {
